@@ -6,6 +6,7 @@ import (
 	"go/token"
 	"go/types"
 	"reflect"
+	"sort"
 	"strings"
 	"unicode"
 
@@ -15,6 +16,7 @@ import (
 // Rules added after the eleventh (short) seeding round.
 
 func init() {
+	extend("C06", "(P06-dummy-date) the dummy record the parser continues with after a rejected headline has no date (NewDate(0, 0, 0), error discarded): no record method the parser uses, and no code of the parser, calls a method on that date.", ruleP06DummyDate)
 	extend("C12", "(P12-aggregate-enum) every spelling the `--aggregate` flag admits (the values of its enum tag: DAY, day, d, WEEK, …) is carried by canonicaliseOpts and aggregator() to the aggregator of its kind — evaluated for each admitted value; a spelling that falls through to the default groups the rows by day although a longer period was asked for.", ruleP12AggregateEnum)
 	extend("C19", "(P19-blank-args) of the file arguments only blank ones are dropped before they are resolved: the test in removeBlankEntries strips white space and nothing else — a bare `@` is the default bookmark, not an absent argument.", ruleP19BlankArgs)
 	extend("C10", "(P07-tail-bytes) the text handed from one batch to the next starts at the byte where the batch's last block starts (the exact original length of its lines, line endings of either kind included): cut elsewhere, the parallel engine reports errors for text that is no line of the file.", ruleP07TailBytes)
@@ -791,4 +793,122 @@ func durationRenderedRight(f *ssa.Function, want string) bool {
 		}
 	}
 	return true
+}
+
+// P06-dummy-date — after a rejected headline the parser goes on with a dummy record whose date
+// comes from a NewDate call with its error discarded (NewDate(0, 0, 0): the date is nil). Every
+// record method the parser calls (and the record methods those call on the same receiver) must
+// therefore not call a method on the record's date, and the parser must not call one on Date()
+// of its record: a nil interface there crashes on a text with a faulty headline.
+func ruleP06DummyDate(p *Prog, r *Report) {
+	const rule = "P06-dummy-date"
+	parse := p.fn("klog/parser", "parse")
+	if !r.anchorFn(rule, parse, "parser.parse") {
+		return
+	}
+	var premise ssa.Instruction
+	names := map[string]bool{}
+	for _, f := range withAnons(parse) {
+		f := f
+		eachInstr(f, func(in ssa.Instruction) {
+			c, ok := in.(ssa.CallInstruction)
+			if !ok {
+				return
+			}
+			if g := staticCallee(c); g != nil && fnBase(g) == "NewRecord" && pkgPathOfFn(g) == modPath+"/klog" && len(c.Common().Args) == 1 {
+				if dc, idx := callOf(c.Common().Args[0]); dc != nil && idx == 0 && staticCallee(dc) != nil && fnBase(staticCallee(dc)) == "NewDate" {
+					if cl, _ := p.classifyErr(dc); cl != errChecked {
+						premise = in
+					}
+				}
+			}
+			if c.Common().IsInvoke() && typeNameOf(c.Common().Value.Type()) == "Record" {
+				names[c.Common().Method.Name()] = true
+			}
+			// a method of the record's Date() called by the parser itself
+			if c.Common().IsInvoke() {
+				if n, recv, _, _ := methodCall(c.Common().Value); n == "Date" && recv != nil && typeNameOf(recv.Type()) == "Record" {
+					if p.nilnessAt(c.Block(), c.Common().Value, 0) != nnNonNil {
+						r.bad(rule, "parse:Date()."+c.Common().Method.Name(), p.instrPos(c), "the parser calls %s on the date of its record, which is nil for the dummy record that stands in after a rejected headline: klog crashes on such a text", c.Common().Method.Name())
+					}
+				}
+			}
+		})
+	}
+	if premise == nil {
+		r.ok(rule, "premise", p.pos(parse.Pos()), "the parser builds no record from a date whose construction error is discarded")
+		return
+	}
+	if len(names) < 3 {
+		r.undecided(rule, "floor", p.pos(parse.Pos()), "only %d record methods found in use by the parser, expected at least 3", len(names))
+		return
+	}
+	var order []string
+	for n := range names {
+		order = append(order, n)
+	}
+	sort.Strings(order)
+	seen := map[*ssa.Function]bool{}
+	var visit func(m *ssa.Function, via string)
+	visit = func(m *ssa.Function, via string) {
+		if m == nil || seen[m] || len(m.Params) == 0 {
+			return
+		}
+		seen[m] = true
+		bad := false
+		eachInstr(m, func(in ssa.Instruction) {
+			c, ok := in.(ssa.CallInstruction)
+			if !ok {
+				return
+			}
+			if c.Common().IsInvoke() {
+				if _, fld := fieldLoad(c.Common().Value); fld == "date" && typeNameOf(c.Common().Value.Type()) == "Date" {
+					if p.nilnessAt(c.Block(), c.Common().Value, 0) != nnNonNil && !dateFieldTestedNonNil(c.Block()) {
+						bad = true
+						r.bad(rule, "record."+m.Name()+":date."+c.Common().Method.Name(), p.instrPos(c), "record.%s (used by the parser%s) calls %s on the record's date, which is nil for the dummy record that stands in after a rejected headline: klog crashes on such a text", m.Name(), via, c.Common().Method.Name())
+					}
+				}
+				return
+			}
+			if g := staticCallee(c); g != nil && g.Signature.Recv() != nil && len(c.Common().Args) > 0 {
+				a0 := strip(c.Common().Args[0])
+				if a0 == ssa.Value(m.Params[0]) && typeNameOf(derefType(g.Signature.Recv().Type())) == "record" {
+					visit(g, " through "+m.Name())
+				}
+			}
+		})
+		if !bad {
+			r.ok(rule, "record."+m.Name(), p.pos(m.Pos()), "calls no method on the record's date")
+		}
+	}
+	for _, n := range order {
+		visit(p.method("klog", "record", n), "")
+	}
+}
+
+// dateFieldTestedNonNil: block b is only reached where a test `<record>.date != nil` held (or
+// `== nil` failed) — another load of the same field than the one used, which nilnessAt does not
+// correlate.
+func dateFieldTestedNonNil(b *ssa.BasicBlock) bool {
+	for _, g := range guardsOf(b) {
+		bo, ok := strip(g.Cond).(*ssa.BinOp)
+		if !ok || (bo.Op != token.NEQ && bo.Op != token.EQL) {
+			continue
+		}
+		isNil := func(v ssa.Value) bool {
+			k, isK := strip(v).(*ssa.Const)
+			return isK && k.Value == nil
+		}
+		isDate := func(v ssa.Value) bool {
+			_, fld := fieldLoad(v)
+			return fld == "date"
+		}
+		if !((isDate(bo.X) && isNil(bo.Y)) || (isDate(bo.Y) && isNil(bo.X))) {
+			continue
+		}
+		if (bo.Op == token.NEQ) == g.Pol {
+			return true
+		}
+	}
+	return false
 }
